@@ -1058,6 +1058,9 @@ class Scheduler:
         self._pending_jobs.clear()
         self._jobs.clear()
         self._finalized_jobs.clear()
+        # Promises of threads forked in a previous execution belong to jobs that are gone. A
+        # later join of such a Thread evaluates its expression again (see `join_thread`).
+        self._tracked_promises.clear()
 
         # Drop what a previous execution that stopped early (e.g. failed while other jobs were
         # still running) left behind: events of its jobs, jobs waiting for resource limits and
